@@ -397,8 +397,13 @@ fn gen_macro(ch: &mut Ch, _thorough: bool) -> Option<Case> {
     if deref && shape != 1 || ops && shape == 2 {
         return None;
     }
-    let frag = *ch.of(&["ident", "tt", "meta"]);
+    // "expr-default": explicit default values (a string literal and a path, both needing the documented Into) arrive
+    // as `expr` fragments
+    let frag = *ch.of(&["ident", "tt", "meta", "expr-default"]);
     let entry = *ch.of(&Entry::BOTH);
+    if frag == "expr-default" && !(list.contains(&"Default") && shape == 0) {
+        return None;
+    }
     let d = if list.contains(&"Default") { "#[default] " } else { "" };
     let item = match shape {
         0 => "pub struct X { pub a: Fty, pub b: Fty }".to_string(),
@@ -414,9 +419,11 @@ fn program(c: &Case) -> String {
         let ex = if c.entry == Entry::Derive { "#[derive(Ex)] " } else { "" };
         let body = match c.desc.as_str() {
             "meta" => format!("macro_rules! mk {{ ($m:meta) => {{ {ex}#[$m] {} }} }}\nmk!(derive_ex({list}));\n", c.item),
+            "expr-default" => format!("pub const S9: &str = \"s9\";\nmacro_rules! mk {{ ($v:expr, $w:expr) => {{ {ex}#[derive_ex({list})] {} }} }}\nmk!(\"abc\", S9);\n", c.item.replace("pub a: Fty", "#[default($v)] pub a: Wr").replace("pub b: Fty", "#[default($w)] pub b: Wr")),
             f => format!("macro_rules! mk {{ ($t:{f}) => {{ {ex}#[derive_ex({list})] {} }} }}\nmk!(Fty);\n", c.item.replace("Fty", "$t")),
         };
-        return format!("use derive_ex::{{derive_ex, Ex}};\npub type Fty = i8;\n{body}");
+        // Wr: every std trait of the lists, and From<&str> only (the value needs the conversion)
+        return format!("use derive_ex::{{derive_ex, Ex}};\npub type Fty = i8;\n#[derive(Clone, Copy, Debug, Default, PartialEq, Eq, PartialOrd, Ord, Hash)] pub struct Wr(pub u8);\nimpl<'a> ::core::convert::From<&'a str> for Wr {{ fn from(s: &'a str) -> Wr {{ Wr(s.len() as u8) }} }}\n{body}");
     }
     let list = c.list.join(", ");
     let head = match c.entry {
